@@ -577,6 +577,17 @@ func RUnitCmp(c *core.Ctx) {
 						if cal := x.Call.StaticCallee(); cal != nil && byteFns[cal] {
 							set(x, 1)
 						}
+						// an index-mapping callback handed in by the caller (makeIndex): given rune
+						// positions it answers in the caller's unit, which for string input is bytes
+						if prm, ok := x.Call.Value.(*ssa.Parameter); ok {
+							if _, isFn := prm.Type().Underlying().(*types.Signature); isFn {
+								for _, a := range x.Call.Args {
+									if kind[a] == 2 {
+										set(x, 1)
+									}
+								}
+							}
+						}
 					case *ssa.Extract:
 						set(x, kind[x.Tuple])
 					case *ssa.IndexAddr:
